@@ -78,19 +78,55 @@ func (s *State) String() string {
 	}
 }
 
+// The state word holds the state in its two low bits and, above them, a generation that is
+// advanced by every transition to Open. A caller that has examined one Open period (state word
+// and retry deadline) can then move the breaker to HalfOpen only if it is still in that very
+// period: with the bare state a breaker that was probed by somebody else and re-opened in the
+// meantime looks just the same (ABA) and would be probed again before its new retry timeout.
+const stateMask = 3
+
+func (s *State) word() int32 {
+	return atomic.LoadInt32((*int32)(s))
+}
+
 func (s *State) get() State {
-	return State(atomic.LoadInt32((*int32)(s)))
+	return State(s.word() & stateMask)
 }
 
 func (s *State) set(update State) {
-	atomic.StoreInt32((*int32)(s), int32(update))
+	for {
+		w := s.word()
+		if atomic.CompareAndSwapInt32((*int32)(s), w, nextWord(w, update)) {
+			return
+		}
+	}
 }
 
 func (s *State) cas(expect State, update State) bool {
-	return atomic.CompareAndSwapInt32((*int32)(s), int32(expect), int32(update))
+	for {
+		w := s.word()
+		if State(w&stateMask) != expect {
+			return false
+		}
+		if atomic.CompareAndSwapInt32((*int32)(s), w, nextWord(w, update)) {
+			return true
+		}
+	}
 }
 
-// StateChangeListener listens on the circuit breaker state change event
+// casWord is cas for a caller that has seen the whole state word w.
+func (s *State) casWord(w int32, update State) bool {
+	return atomic.CompareAndSwapInt32((*int32)(s), w, nextWord(w, update))
+}
+
+func nextWord(w int32, update State) int32 {
+	gen := uint32(w) &^ stateMask
+	if update == Open {
+		gen += stateMask + 1
+	}
+	return int32(gen | uint32(update))
+}
+
 type StateChangeListener interface {
 	// OnTransformToClosed is triggered when circuit breaker state transformed to Closed.
 	// Argument rule is copy from circuit breaker's rule, any changes of rule don't take effect for circuit breaker
@@ -195,8 +231,8 @@ func (b *circuitBreakerBase) fromClosedToOpen(snapshot interface{}) bool {
 
 // fromOpenToHalfOpen updates circuit breaker state machine from open to half-open.
 // Return true only if current goroutine successfully accomplished the transformation.
-func (b *circuitBreakerBase) fromOpenToHalfOpen(ctx *base.EntryContext) bool {
-	if b.state.cas(Open, HalfOpen) {
+func (b *circuitBreakerBase) fromOpenToHalfOpen(openWord int32, ctx *base.EntryContext) bool {
+	if b.state.casWord(openWord, HalfOpen) {
 		for _, listener := range stateChangeListeners {
 			listener.OnTransformToHalfOpen(Open, *b.rule)
 		}
@@ -301,12 +337,13 @@ func (b *slowRtCircuitBreaker) BoundStat() interface{} {
 
 // TryPass checks circuit breaker based on state machine of circuit breaker.
 func (b *slowRtCircuitBreaker) TryPass(ctx *base.EntryContext) bool {
-	curStatus := b.CurrentState()
+	word := b.state.word()
+	curStatus := State(word & stateMask)
 	if curStatus == Closed {
 		return true
 	} else if curStatus == Open {
 		// switch state to half-open to probe if retry timeout
-		if b.retryTimeoutArrived() && b.fromOpenToHalfOpen(ctx) {
+		if b.retryTimeoutArrived() && b.fromOpenToHalfOpen(word, ctx) {
 			return true
 		}
 	} else if curStatus == HalfOpen && b.probeNumber > 0 {
@@ -490,12 +527,13 @@ func (b *errorRatioCircuitBreaker) BoundStat() interface{} {
 }
 
 func (b *errorRatioCircuitBreaker) TryPass(ctx *base.EntryContext) bool {
-	curStatus := b.CurrentState()
+	word := b.state.word()
+	curStatus := State(word & stateMask)
 	if curStatus == Closed {
 		return true
 	} else if curStatus == Open {
 		// switch state to half-open to probe if retry timeout
-		if b.retryTimeoutArrived() && b.fromOpenToHalfOpen(ctx) {
+		if b.retryTimeoutArrived() && b.fromOpenToHalfOpen(word, ctx) {
 			return true
 		}
 	} else if curStatus == HalfOpen && b.probeNumber > 0 {
@@ -675,12 +713,13 @@ func (b *errorCountCircuitBreaker) BoundStat() interface{} {
 }
 
 func (b *errorCountCircuitBreaker) TryPass(ctx *base.EntryContext) bool {
-	curStatus := b.CurrentState()
+	word := b.state.word()
+	curStatus := State(word & stateMask)
 	if curStatus == Closed {
 		return true
 	} else if curStatus == Open {
 		// switch state to half-open to probe if retry timeout
-		if b.retryTimeoutArrived() && b.fromOpenToHalfOpen(ctx) {
+		if b.retryTimeoutArrived() && b.fromOpenToHalfOpen(word, ctx) {
 			return true
 		}
 	} else if curStatus == HalfOpen && b.probeNumber > 0 {
